@@ -216,6 +216,39 @@ def cell_cleaning_rule(ctx, prop, rid):
     return r
 
 
+def from_file_params_obligations(ctx, rule, rid):
+    """Every spelling of a select-from-file type (the table aliases.select_from_file) accepts the value / label
+    parameters; an ordinary select does not.  The guard of the statement that extends the allowed-parameter list is
+    evaluated for each spelling."""
+    from ..astutil import guards_of
+    from ..interp import Raised
+    from ..rowloop import row_loop_of
+    w2j = ctx.func("pyxform.xls2json:workbook_to_json", rid)
+    loop = row_loop_of(w2j)
+    sites = [x for x in walk_own(loop) if isinstance(x, ast.AugAssign | ast.Assign | ast.Expr) and "value" in norm(x) and "label" in norm(x) and "allowed" in norm(x).split("=")[0].split("(")[0]
+             and not isinstance(x, ast.Expr)]
+    sites = [x for x in sites if any(isinstance(n, ast.Constant) and n.value == "value" for n in ast.walk(x)) and any(isinstance(n, ast.Constant) and n.value == "label" for n in ast.walk(x))]
+    if len(sites) != 1:
+        rule.fail("select-from-file parameters:site", f"one statement adds value / label to the allowed select parameters (found {len(sites)})", w2j.loc(loop))
+        return
+    gs = [t for t, pol in guards_of(sites[0], stop=loop) if pol]
+    guard = gs[-1] if gs else None
+    table = ctx.consts.get("pyxform.aliases", "select_from_file", rid)
+    plain = ctx.consts.get("pyxform.aliases", "select", rid)
+    names = {n.id for n in ast.walk(guard) if isinstance(n, ast.Name) and isinstance(n.ctx, ast.Load)} if guard is not None else set()
+    locals_ = {n for n in names if w2j.module.imports.get(n) is None and n not in w2j.module.functions and n not in w2j.module.assigns}
+    for spelling, want in [(k, True) for k in sorted(table)] + [(k, False) for k in sorted(plain) if k not in table][:6]:
+        it = ctx.interp(rid)
+        it.reset([])
+        env = {n: ({"select_command": spelling, "list_name": "c.csv"} if "dict" in n or "parse" in n else spelling) for n in locals_}
+        try:
+            got = it.truth(it.eval(guard, env, w2j.module)) if guard is not None else None
+        except Raised as e:
+            got = f"raises {e.exc_name}"
+        rule.check(got is want, f"select-from-file parameters[{spelling!r}]", f"value / label parameters are {'accepted' if want else 'not offered'} for this spelling", w2j.loc(sites[0]),
+                   why_fail=f"guard `{norm(guard)[:70] if guard is not None else None}` evaluates to {got}")
+
+
 def run(ctx):
     repo = ctx.repo
     rules = []
@@ -258,6 +291,7 @@ def run(ctx):
         r1.check(qtd.get(a) is not None and qtd.get(a) == qtd.get(b), f"types {a!r}=={b!r}", "equivalent type spellings have equal table entries", "pyxform/question_type_dictionary.py")
     from .c05 import truth_conversion_eval
     truth_conversion_eval(ctx, r1, "C13.R1")
+    from_file_params_obligations(ctx, r1, "C13.R1")
     rules.append(r1)
 
     # ------------------------------------------------------------------ R2
